@@ -28,6 +28,7 @@ def run(ctx, repo):
     RE.r_tagchar_inclusion(ctx, repo)
     RX.r_analyze_special(ctx, repo)
     RX.r_emitter_doc_reset(ctx, repo)
+    RE.r_tag_suffix_nonempty(ctx, repo)
 
 if __name__ == '__main__':
     sys.exit(report.main('C15', 'other', run))
